@@ -1,0 +1,42 @@
+//go:build verif
+
+package yqlib
+
+import (
+	"fmt"
+	"os"
+	"strings"
+	"syscall"
+)
+
+// verifPoint is a named fault / crash point of the in-place write protocol.
+// It only exists in builds with the `verif` tag.
+//
+//	YQ_VERIF_TRACE=<file>        append the name of every point reached (one per line)
+//	YQ_VERIF_FAULT=<point>=err   make that point return an error
+//	YQ_VERIF_FAULT=<point>=kill  kill the process (SIGKILL) at that point
+func verifPoint(name string) error {
+	if trace := os.Getenv("YQ_VERIF_TRACE"); trace != "" {
+		if f, err := os.OpenFile(trace, os.O_APPEND|os.O_CREATE|os.O_WRONLY, 0o600); err == nil {
+			_, _ = f.WriteString(name + "\n")
+			_ = f.Sync()
+			_ = f.Close()
+		}
+	}
+	fault := os.Getenv("YQ_VERIF_FAULT")
+	if fault == "" {
+		return nil
+	}
+	point, mode, ok := strings.Cut(fault, "=")
+	if !ok || point != name {
+		return nil
+	}
+	switch mode {
+	case "err":
+		return fmt.Errorf("verif: injected fault at %v", name)
+	case "kill":
+		_ = syscall.Kill(os.Getpid(), syscall.SIGKILL)
+		select {}
+	}
+	return nil
+}
